@@ -47,7 +47,7 @@ def replay(chk, path):
         for e in errs[:20]:
             print("  ", e)
         return 0 if ok else 1
-    impl_dir = vlib.build_impl("asan")
+    impl_dir = vlib.build_impl(rp.get("impl_variant") or "asan")      # "asan-ndebug": found on the -DNDEBUG build
     hbin = vlib.build_harness(rp.get("harness") or chk.harness, impl_dir, "asan", chk.wraps, lib=rp.get("lib") or chk.lib)
     text = "\n".join(ops) + "\n"
     im, rc, err = vlib.run_proc([hbin], text)
